@@ -424,10 +424,10 @@ def _literal(e: ast.expr) -> Optional[ast.expr]:
         return e
     if isinstance(e, ast.UnaryOp) and isinstance(e.op, ast.USub) and isinstance(e.operand, ast.Constant) and type(e.operand.value) is int:
         return ast.Constant(value=-e.operand.value)
-    if isinstance(e, ast.BinOp) and isinstance(e.op, (ast.LShift, ast.BitOr, ast.BitAnd, ast.Add, ast.Sub, ast.Mult, ast.Pow)):
+    if isinstance(e, ast.BinOp) and isinstance(e.op, (ast.LShift, ast.RShift, ast.BitOr, ast.BitAnd, ast.Add, ast.Sub, ast.Mult, ast.Pow)):
         l, r = _literal(e.left), _literal(e.right)
         if l is not None and r is not None and type(l.value) is int and type(r.value) is int and 0 <= r.value <= 64 and abs(l.value) < 2 ** 64:
-            v = {ast.LShift: lambda a, b: a << b, ast.BitOr: lambda a, b: a | b, ast.BitAnd: lambda a, b: a & b, ast.Add: lambda a, b: a + b,
+            v = {ast.LShift: lambda a, b: a << b, ast.RShift: lambda a, b: a >> b, ast.BitOr: lambda a, b: a | b, ast.BitAnd: lambda a, b: a & b, ast.Add: lambda a, b: a + b,
                  ast.Sub: lambda a, b: a - b, ast.Mult: lambda a, b: a * b, ast.Pow: lambda a, b: a ** b}[type(e.op)](l.value, r.value)
             return ast.Constant(value=v)
     return None
@@ -487,6 +487,233 @@ def _constants(parsed, log) -> None:
         if r.n:
             log.setdefault(m, {})["named literals read as the literal"] = r.n
             ast.fix_missing_locations(tree)
+
+
+_PURE_BUILTINS = {"bool", "int", "bytes", "chr", "ord", "str", "len", "tuple"}
+
+
+def _value_constants(parsed, log) -> None:
+    """Module-level names for IMMUTABLE VALUE OBJECTS built from constants are read as the expression that builds them:
+    `_BOOLEAN_TAG = ASN1Tag.universal_tag(TypeTagNumber.BOOLEAN)` (a NamedTuple class of the package), tuples of such
+    values / enum members / class references, and tables `T = tuple(<elt over v> for v in range(N))`, whose subscripts
+    `T[k]` become `<elt over k>` - with an `assert 0 <= k < N` placed in front of the statement when k is a variable,
+    so that the rewrite says exactly what the subscript says.  Identity is the only thing lost, and nothing can observe
+    the identity of an immutable tuple.  A name bound more than once, a mutable object (a writer, a list, a dict) or an
+    element with a call outside the listed pure ones is left alone."""
+    trees = {m: t for m, _p, _s, t in parsed}
+    nt: Set[str] = set()
+    classes: Set[str] = set()
+    for tree in trees.values():
+        for b in tree.body:
+            if isinstance(b, ast.ClassDef):
+                classes.add(b.name)
+                for base in b.bases:
+                    if (isinstance(base, ast.Attribute) and base.attr == "NamedTuple") or (isinstance(base, ast.Name) and base.id == "NamedTuple"):
+                        nt.add(b.name)
+
+    def const(e: ast.expr, var: Optional[str], env: Dict[str, ast.expr]) -> bool:
+        if _literal(e) is not None:
+            return True
+        if isinstance(e, ast.Name):
+            return e.id == var or e.id in env or e.id in classes
+        if isinstance(e, ast.Attribute):
+            root, depth = e, 0
+            while isinstance(root, ast.Attribute):
+                root, depth = root.value, depth + 1
+            return depth <= 3 and isinstance(root, ast.Name) and root.id in classes and root.id[:1].isupper()
+        if isinstance(e, ast.Tuple):
+            return all(const(x, var, env) for x in e.elts)
+        if isinstance(e, (ast.BinOp,)):
+            return isinstance(e.op, (ast.BitAnd, ast.BitOr, ast.LShift, ast.RShift, ast.Add, ast.Sub, ast.Mult)) and const(e.left, var, env) and const(e.right, var, env)
+        if isinstance(e, ast.JoinedStr):
+            return all(isinstance(v, ast.Constant) or (isinstance(v, ast.FormattedValue) and const(v.value, var, env) and
+                                                        (v.format_spec is None or all(isinstance(q, ast.Constant) for q in v.format_spec.values))) for v in e.values)
+        if isinstance(e, ast.Call):
+            f = e.func
+            ok = (isinstance(f, ast.Name) and (f.id in nt or f.id in _PURE_BUILTINS - {"tuple"} or (var is not None and f.id in classes))) or \
+                 (isinstance(f, ast.Attribute) and isinstance(f.value, ast.Name) and f.value.id in nt) or \
+                 (isinstance(f, ast.Attribute) and f.attr in ("encode", "to_bytes") and const(f.value, var, env))
+            return ok and all(const(a, var, env) for a in e.args) and all(k.arg is not None and const(k.value, var, env) for k in e.keywords)
+        return False
+
+    def value_object(e: ast.expr) -> bool:
+        """Top level must BE an immutable value: a NamedTuple construction or a tuple of constants (not a bare literal - those are `_constants`)."""
+        if isinstance(e, ast.Tuple):
+            return bool(e.elts)
+        if isinstance(e, ast.Call):
+            f = e.func
+            return (isinstance(f, ast.Name) and f.id in nt) or (isinstance(f, ast.Attribute) and isinstance(f.value, ast.Name) and f.value.id in nt)
+        return False
+
+    def table(e: ast.expr, env) -> Optional[Tuple[str, ast.expr, int]]:
+        if isinstance(e, ast.Call) and isinstance(e.func, ast.Name) and e.func.id == "tuple" and len(e.args) == 1 and not e.keywords and \
+                isinstance(e.args[0], (ast.GeneratorExp, ast.ListComp)) and len(e.args[0].generators) == 1:
+            g = e.args[0].generators[0]
+            if isinstance(g.target, ast.Name) and not g.ifs and not g.is_async and isinstance(g.iter, ast.Call) and isinstance(g.iter.func, ast.Name) and \
+                    g.iter.func.id == "range" and len(g.iter.args) == 1 and not g.iter.keywords:
+                n = _literal(g.iter.args[0])
+                if n is not None and type(n.value) is int and 0 < n.value <= 65536 and const(e.args[0].elt, g.target.id, env):
+                    return g.target.id, e.args[0].elt, n.value
+        return None
+
+    def free_names(e: ast.expr, var: Optional[str]) -> Set[str]:
+        return {x.id for x in ast.walk(e) if isinstance(x, ast.Name) and x.id != var and x.id not in _PURE_BUILTINS}
+
+    values: Dict[str, Dict[str, ast.expr]] = {}
+    tables: Dict[str, Dict[str, Tuple[str, ast.expr, int]]] = {}
+    for m, tree in trees.items():
+        bound = _bound_names(tree)
+        vals: Dict[str, ast.expr] = {}
+        tabs: Dict[str, Tuple[str, ast.expr, int]] = {}
+        for st in tree.body:
+            if isinstance(st, ast.Assign) and len(st.targets) == 1 and isinstance(st.targets[0], ast.Name):
+                name, val = st.targets[0].id, st.value
+            elif isinstance(st, ast.AnnAssign) and isinstance(st.target, ast.Name) and st.value is not None:
+                name, val = st.target.id, st.value
+            else:
+                continue
+            if name.startswith("__") or bound.get(name, 0) != 1 or name == "__all__":
+                continue
+            if not (name.startswith("_") or (m.rsplit(".", 1)[-1].startswith("_") and name.isupper())):
+                continue
+            val = _Rename(dict(vals), {}).visit(copy.deepcopy(val))
+            if value_object(val) and const(val, None, vals):
+                vals[name] = val
+            else:
+                tb = table(val, vals)
+                if tb is not None:
+                    tabs[name] = tb
+        values[m], tables[m] = vals, tabs
+
+    class _Sub(ast.NodeTransformer):
+        def __init__(self, var: str, to: ast.expr):
+            self.var, self.to = var, to
+
+        def visit_Name(self, node: ast.Name):
+            if node.id == self.var and isinstance(node.ctx, ast.Load):
+                return copy.deepcopy(self.to)
+            return node
+
+    for m, tree in trees.items():
+        bound = _bound_names(tree)
+        vals = dict(values[m])
+        tabs = dict(tables[m])
+        for node in tree.body:
+            if isinstance(node, ast.ImportFrom):
+                base = _abs_module(m, node.module, node.level)
+                for al in node.names:
+                    have = al.asname or al.name
+                    if bound.get(have, 0) != 1:
+                        continue
+                    if al.name in values.get(base, {}) and all(bound.get(n, 0) == 1 for n in free_names(values[base][al.name], None)):
+                        vals[have] = values[base][al.name]
+                    if al.name in tables.get(base, {}) and all(bound.get(n, 0) == 1 for n in free_names(tables[base][al.name][1], tables[base][al.name][0])):
+                        tabs[have] = tables[base][al.name]
+        if not vals and not tabs:
+            continue
+        count = 0
+        # tables first: every load of the name must be a subscript by a name or an int literal, else the table stays
+        if tabs:
+            uses: Dict[str, List[ast.Subscript]] = {k: [] for k in tabs}
+            other: Set[str] = set()
+            subs_values = set()
+            for x in ast.walk(tree):
+                if isinstance(x, ast.Subscript) and isinstance(x.value, ast.Name) and x.value.id in tabs and isinstance(x.ctx, ast.Load):
+                    idx = x.slice
+                    lit = _literal(idx) if not isinstance(idx, ast.Slice) else None
+                    pure = not isinstance(idx, ast.Slice) and all(
+                        isinstance(y, (ast.Name, ast.Constant, ast.Subscript, ast.Attribute, ast.expr_context)) or
+                        (isinstance(y, ast.Call) and not y.keywords and ((isinstance(y.func, ast.Attribute) and y.func.attr == "group") or
+                                                                        (isinstance(y.func, ast.Name) and y.func.id == "ord"))) for y in ast.walk(idx))
+                    if pure and lit is None or (lit is not None and type(lit.value) is int and 0 <= lit.value < tabs[x.value.id][2]):
+                        uses[x.value.id].append(x)
+                        subs_values.add(id(x.value))
+                    else:
+                        other.add(x.value.id)
+            for x in ast.walk(tree):
+                if isinstance(x, ast.Name) and isinstance(x.ctx, ast.Load) and x.id in tabs and id(x) not in subs_values:
+                    other.add(x.id)
+            live = {k for k in tabs if k not in other and uses[k]}
+            if live:
+                def rewrite_expr(e: ast.AST, guards: List[ast.stmt]) -> ast.AST:
+                    class R(ast.NodeTransformer):
+                        def visit_Subscript(s, node: ast.Subscript):
+                            s.generic_visit(node)
+                            if isinstance(node.value, ast.Name) and node.value.id in live and isinstance(node.ctx, ast.Load):
+                                var, elt, n = tabs[node.value.id]
+                                idx = node.slice
+                                lit = _literal(idx)
+                                if lit is None:
+                                    guards.append(ast.Assert(test=ast.Compare(left=ast.Constant(value=0), ops=[ast.LtE(), ast.Lt()],
+                                                                              comparators=[copy.deepcopy(idx), ast.Constant(value=n)]), msg=None))
+                                nonlocal count
+                                count += 1
+                                out = _Sub(var, lit if lit is not None else idx).visit(copy.deepcopy(elt))
+                                folded = _literal(out)
+                                return ast.copy_location(folded if folded is not None else out, node)
+                            return node
+
+                        def visit_FunctionDef(s, node):
+                            return node
+
+                        visit_AsyncFunctionDef = visit_Lambda = visit_ClassDef = visit_FunctionDef
+                    return R().visit(e)
+
+                def do_body(body: List[ast.stmt]) -> List[ast.stmt]:
+                    out: List[ast.stmt] = []
+                    for st in body:
+                        guards: List[ast.stmt] = []
+                        if isinstance(st, (ast.Assign, ast.AnnAssign, ast.AugAssign, ast.Expr, ast.Return, ast.Raise, ast.Assert)):
+                            st = rewrite_expr(st, guards)
+                        elif isinstance(st, ast.If):
+                            st.test = rewrite_expr(st.test, guards)
+                        elif isinstance(st, ast.For):
+                            st.iter = rewrite_expr(st.iter, guards)
+                        elif isinstance(st, ast.With):
+                            for it in st.items:
+                                it.context_expr = rewrite_expr(it.context_expr, guards)
+                        for fld in ("body", "orelse", "finalbody"):
+                            if isinstance(getattr(st, fld, None), list) and not isinstance(st, (ast.Assign, ast.Expr)):
+                                setattr(st, fld, do_body(getattr(st, fld)))
+                        if isinstance(st, ast.Try):
+                            for h in st.handlers:
+                                h.body = do_body(h.body)
+                        for g in guards:
+                            ast.copy_location(g, st)
+                        out.extend(guards)
+                        out.append(st)
+                    return out
+
+                tree.body = do_body(tree.body)
+                # a subscript that survived (inside a while test, a lambda, a comprehension) keeps its table: then nothing of that table may have been rewritten
+                left = {x.value.id for x in ast.walk(tree) if isinstance(x, ast.Subscript) and isinstance(x.value, ast.Name) and x.value.id in live}
+                if left:
+                    raise_left = sorted(left)
+                    log.setdefault(m, {})["constant tables partly rewritten: " + ",".join(raise_left)] = len(raise_left)
+        if vals:
+            r = _Rename(vals, {})
+            for b in tree.body:
+                if isinstance(b, (ast.Assign, ast.AnnAssign)) and isinstance(getattr(b, "target", None) or b.targets[0], ast.Name) and \
+                        (getattr(b, "target", None) or b.targets[0]).id in vals:
+                    continue
+                r.visit(b)
+            count += r.n
+            # `(a, b, c)[1]` -> b
+            class Sel(ast.NodeTransformer):
+                def visit_Subscript(s, node: ast.Subscript):
+                    s.generic_visit(node)
+                    if isinstance(node.value, ast.Tuple) and isinstance(node.ctx, ast.Load):
+                        lit = _literal(node.slice) if not isinstance(node.slice, ast.Slice) else None
+                        if lit is not None and type(lit.value) is int and 0 <= lit.value < len(node.value.elts) and \
+                                not any(isinstance(e, ast.Starred) for e in node.value.elts):
+                            return ast.copy_location(node.value.elts[lit.value], node)
+                    return node
+            if r.n:
+                Sel().visit(tree)
+        if count:
+            log.setdefault(m, {})["named value objects / constant tables read as the expression"] = count
+            ast.fix_missing_locations(tree)
+
 
 
 _TYPING_HEADS = {"Union", "Optional", "List", "Dict", "Tuple", "Set", "FrozenSet", "Sequence", "Iterable", "Iterator", "Callable", "Type", "Mapping",
@@ -1088,6 +1315,90 @@ def _roles(parsed, log) -> None:
             log.setdefault(module, {})[f"attribute {cls}.{have} read as {want}"] = n
 
 
+def _local_aliases(parsed, log) -> None:
+    """A local bound once to an attribute chain (`append = messages.append`, `control_options = options.control`,
+    `message_id = msg.message_id`, `options = self._packing_options`) is read as the chain: hoisting an attribute read
+    out of a loop and reading it in the loop are the same program when nothing writes the attribute in between.
+    Conditions: the local is bound exactly once in the function and not used in a nested function; the root of the chain
+    is bound at most once in the function (a parameter or a single assignment); no attribute of the chain's names is
+    stored in the function; a chain rooted at `self` qualifies only if its first attribute is written nowhere in the
+    package outside `__init__` (session state that changes - `self.state`, the buffers - is never read through this pass)."""
+    stored_outside_init: Set[str] = set()
+    for _m, _p, _s, tree in parsed:
+        for cls in [b for b in ast.walk(tree) if isinstance(b, ast.ClassDef)]:
+            for fn in cls.body:
+                if isinstance(fn, (ast.FunctionDef, ast.AsyncFunctionDef)) and fn.name != "__init__":
+                    for x in ast.walk(fn):
+                        if isinstance(x, ast.Attribute) and isinstance(x.ctx, (ast.Store, ast.Del)):
+                            stored_outside_init.add(x.attr)
+        for x in ast.walk(tree):
+            if isinstance(x, ast.Call) and isinstance(x.func, ast.Name) and x.func.id in ("setattr", "delattr") and len(x.args) >= 2 and \
+                    isinstance(x.args[1], ast.Constant) and isinstance(x.args[1].value, str):
+                stored_outside_init.add(x.args[1].value)
+            if isinstance(x, ast.Call) and isinstance(x.func, ast.Attribute) and x.func.attr in ("__setattr__", "__delattr__") and len(x.args) >= 2 and \
+                    isinstance(x.args[1], ast.Constant) and isinstance(x.args[1].value, str):
+                stored_outside_init.add(x.args[1].value)
+    for m, _p, _s, tree in parsed:
+        n = 0
+        for fn in [f for f in ast.walk(tree) if isinstance(f, (ast.FunctionDef, ast.AsyncFunctionDef))]:
+            inner = [x for b in fn.body for x in ast.walk(b) if isinstance(x, (ast.FunctionDef, ast.AsyncFunctionDef, ast.Lambda, ast.ClassDef))]
+            inner_nodes = {id(y) for x in inner for y in ast.walk(x)}
+            own = [x for b in fn.body for x in ast.walk(b) if id(x) not in inner_nodes or x in inner]
+            bound: Dict[str, int] = {}
+            a = fn.args
+            for p_ in a.posonlyargs + a.args + a.kwonlyargs + ([a.vararg] if a.vararg else []) + ([a.kwarg] if a.kwarg else []):
+                bound[p_.arg] = bound.get(p_.arg, 0) + 1
+            for x in own:
+                if isinstance(x, ast.Name) and isinstance(x.ctx, (ast.Store, ast.Del)):
+                    bound[x.id] = bound.get(x.id, 0) + 1
+                elif isinstance(x, ast.ExceptHandler) and x.name:
+                    bound[x.name] = bound.get(x.name, 0) + 1
+                elif isinstance(x, (ast.Global, ast.Nonlocal)):
+                    for g in x.names:
+                        bound[g] = bound.get(g, 0) + 2
+            attr_stores = {x.attr for x in own if isinstance(x, ast.Attribute) and isinstance(x.ctx, (ast.Store, ast.Del))}
+            inner_names = {y.id for x in inner for y in ast.walk(x) if isinstance(y, ast.Name)}
+            cands: Dict[str, ast.expr] = {}
+            stmts: Dict[str, ast.Assign] = {}
+            for x in own:
+                if isinstance(x, ast.Assign) and len(x.targets) == 1 and isinstance(x.targets[0], ast.Name) and isinstance(x.value, ast.Attribute):
+                    name = x.targets[0].id
+                    chain, attrs = x.value, []
+                    while isinstance(chain, ast.Attribute):
+                        attrs.append(chain.attr)
+                        chain = chain.value
+                    if not isinstance(chain, ast.Name) or bound.get(name, 0) != 1 or name in inner_names or name == chain.id:
+                        continue
+                    if bound.get(chain.id, 0) > 1 or any(at in attr_stores for at in attrs):
+                        continue
+                    if chain.id == "self" and attrs[-1] in stored_outside_init:
+                        continue
+                    if chain.id != "self" and bound.get(chain.id, 0) == 0 and not chain.id[:1].isupper():
+                        continue        # a module-level object that is not a class: leave it
+                    cands[name] = x.value
+                    stmts[name] = x
+            if not cands:
+                continue
+            # the alias must be assigned before its uses in source order (single binding: any earlier use would be an UnboundLocalError anyway)
+            r = _Rename(cands, {})
+            used_before = False
+            for b in fn.body:
+                r.visit(b)
+            if r.n:
+                n += r.n
+                drop = {id(st) for st in stmts.values()}
+
+                class Drop(ast.NodeTransformer):
+                    def visit_Assign(s_, node: ast.Assign):
+                        return ast.copy_location(ast.Expr(value=node.value), node) if id(node) in drop else node
+                for i, b in enumerate(fn.body):
+                    fn.body[i] = Drop().visit(b)
+        if n:
+            log.setdefault(m, {})["locals bound once to an attribute chain read as the chain"] = n
+            ast.fix_missing_locations(tree)
+
+
+
 def canonicalise(parsed) -> Dict[str, Dict[str, int]]:
     log: Dict[str, Dict[str, int]] = {}
     _imports(parsed, log)
@@ -1096,8 +1407,10 @@ def canonicalise(parsed) -> Dict[str, Dict[str, int]]:
     _prefixes(parsed, log)
     _finals(parsed, log)
     _constants(parsed, log)
+    _value_constants(parsed, log)
     _annotations(parsed, log)
     _aliases(parsed, log)
     _logging(parsed, log)
+    _local_aliases(parsed, log)
     _roles(parsed, log)
     return log
